@@ -220,9 +220,9 @@ class RefRun:
     __slots__ = ("status", "value", "globals", "steps", "why", "float_ops", "max_mag", "calls", "sum_ops")
 
 
-def run_ref(module, fname, args, globals_init, f32_mode=False, max_steps=400000, floor_mod=False):
+def run_ref(module, fname, args, globals_init, f32_mode=False, max_steps=400000, floor_mod=False, wide_literals=False):
     r = RefRun()
-    it = sem.Interp(module, globals_init, f32_mode=f32_mode, max_steps=max_steps, floor_mod=floor_mod)
+    it = sem.Interp(module, globals_init, f32_mode=f32_mode, max_steps=max_steps, floor_mod=floor_mod, wide_literals=wide_literals)
     r.value = None
     r.globals = None
     r.why = None
